@@ -67,7 +67,7 @@ for sig,what in [("panic-extractPushData:p-header-lt3","extractPushData(\"__p__\
     fixed("C33","pushx",sig,"c2b5f70f",what+" -> panic in the PUB/SUB decoder (crashes the node)")
 fixed("C15","filterx","match:in:absent-key","49768f1a","filter {key k, cmp in, vals [\"\",\"a\"]} matched a tag map without k (absent key treated as \"\")")
 fixed("C15","filterx","match:nin:absent-key","49768f1a","filter {key k, cmp nin, vals [\"a\",\"\"]} did not match a tag map without k")
-fixed("C07","connops-C07","leave-before-join:client-side:unsubscribe[wait-gate-released-before-join]","3083e36b","async subscribe callback + client unsubscribe [sub,unsub] at one deviation: the unsubscribe waiting on the in-flight subscribe was released when subscribeCmd returned, before handleSubscribe published the join; observers saw [leave, join]. (The narrower window between commit and join publication remains, see the known entries.)")
+fixed("C07","connops-C07","leave-before-join:client-side:unsubscribe-while-subscribe-in-flight","3083e36b","async subscribe callback + client unsubscribe [sub,unsub] at one deviation: the unsubscribe waiting on the in-flight subscribe was released when subscribeCmd returned, before handleSubscribe published the join; observers saw [leave, join]. (The narrower window between commit and join publication remains, see the known entries.)")
 fixed("C10","connops-C10","push-outside-bracket:publication:non-positioned:before-open:client-side","2b197317","client subscribe racing a publication without offset: writePublication skipped the flagSubscribed check and the publication was written before the subscribe reply")
 fixed("C19","dedupx","want-version:got-accept:after-unversioned-publish","78b792d3","Memory broker: pub(v=1), pub(unversioned), pub(v=1) accepted the third publication (memstream.Add reset the version)")
 fixed("C19","dedupx","got-idempotency:key-used-on-other-channel-only","e4820e26","Memory broker: pub(\"a\", idem \"b_c\") made pub(\"a_b\", idem \"c\") look like a duplicate (cache key ch+\"_\"+key)")
